@@ -7,7 +7,8 @@ only makes sense at the top of a file) stay at the top and belong to copy 0 only
 An embedding is plain data:
   {"scope": [outermost..innermost of SCOPES], "indent": 2|4|8, "k": 1..3, "tags": ["", "x", ...] (rename tag per copy),
    "before": n, "after": n, "inner_before": n, "inner_after": n,
-   "inner": None | "if" | "try" | "with" | "for"  (python: one more block around the statements of a function-shaped example)}
+   "inner": None | "if" | "try" | "with" | "for"  (python: one more block around the statements of a function-shaped example),
+   "guard": None | "before" | "after"  (a complete script entry-point block at module level before / after the example)}
 """
 from __future__ import annotations
 
@@ -338,6 +339,16 @@ def _filler(lang, n, counter, inner):
     return out
 
 
+def _guard(lang, counter, width):
+    """A complete, self-contained script entry point at module level (not around the example)."""
+    counter[0] += 1
+    c = counter[0]
+    ind = " " * width
+    if lang == "python":
+        return ['if __name__ == "__main__":', f"{ind}pad_main_{c}()", ""]
+    return ["if (require.main === module) {", f"{ind}padMain{c}();", "}", ""]
+
+
 def _wrap(lang, scope, body, width, counter):
     """-> (lines, offset of body's first line, indent prefix added to body)"""
     counter[0] += 1
@@ -420,6 +431,10 @@ def embed(unit: list, lang: str, emb: dict, keep: str | None = None, keep_header
         off += o
     before = _filler(lang, emb.get("before", 0), counter, False)
     after = _filler(lang, emb.get("after", 0), counter, False)
+    if emb.get("guard") == "before":
+        before = before + _guard(lang, counter, emb.get("indent", 4))
+    elif emb.get("guard") == "after":
+        after = _guard(lang, counter, emb.get("indent", 4)) + after
     out = list(header) + ([""] if header else []) + before + block + [""] + after
     base = len(header) + (1 if header else 0) + len(before) + off
     copies = []
